@@ -7,6 +7,7 @@ import Mathlib.Algebra.Order.Field.Basic
 import Mathlib.Algebra.Order.Floor.Ring
 import Mathlib.Algebra.Order.Ring.Rat
 import Mathlib.Data.Rat.Floor
+import Mathlib.Analysis.Real.Sqrt
 
 /-!
 # C16 — instruments: settings follow parameters, calibration conserves the spectrum
@@ -39,11 +40,6 @@ theorem covered_of_check (t : ClassTable) (h : coveredB t = true) : Inval.Covere
   have := h c hc p hp
   simpa using this
 
-/-- observing a freshly built instance with parameter versions `ver` -/
-theorem fresh_obs (pr : Inval.Proto P C) (ver : P → Nat) (c : C) :
-    (Inval.step pr (freshAt ver) (.obs c)).2 = some ((pr.deps c).map ver) := by
-  simp [Inval.step, Inval.fill, Inval.view, freshAt]
-
 /-- **settings follow parameters**: under `Covered`, after any history of setter calls and observations every derived
 setting equals the one observed on an instrument built directly in the final configuration -/
 theorem settings_follow_parameters (pr : Inval.Proto P C) (hc : Inval.Covered pr) (ops : List (Inval.Op P C)) (c : C) :
@@ -51,24 +47,6 @@ theorem settings_follow_parameters (pr : Inval.Proto P C) (hc : Inval.Covered pr
       = (Inval.step pr (freshAt (Inval.run pr Inval.init ops).ver) (.obs c)).2 := by
   rw [fresh_obs]
   exact Inval.no_stale pr hc ops c
-
-theorem ver_fill (s : Inval.St P C) (c : C) : (Inval.fill s c).ver = s.ver := by
-  unfold Inval.fill; split <;> rfl
-
-theorem ver_run_filter (pr : Inval.Proto P C) (ops : List (Inval.Op P C)) (s s' : Inval.St P C) (h : s.ver = s'.ver) :
-    (Inval.run pr s ops).ver = (Inval.run pr s' (ops.filter isSet)).ver := by
-  induction ops generalizing s s' with
-  | nil => simpa [Inval.run] using h
-  | cons o os ih =>
-    cases o with
-    | set p =>
-      simp only [List.filter, isSet, Inval.run, List.foldl, Inval.step]
-      apply ih
-      simp [Inval.setP, h]
-    | obs c =>
-      simp only [List.filter, isSet, Inval.run, List.foldl, Inval.step]
-      apply ih
-      rw [ver_fill]; exact h
 
 /-- interleaved observations do not influence what is observed at the end: only the setter calls matter -/
 theorem observations_do_not_matter (pr : Inval.Proto P C) (hc : Inval.Covered pr) (ops : List (Inval.Op P C)) (c : C) :
@@ -114,24 +92,6 @@ variable {α : Type} [Field α] [LinearOrder α] [IsStrictOrderedRing α]
 
 /-- what the `wavelength_to_pixel` setter accepts -/
 def ValidW2P (w2p : List (List α)) : Prop := ∀ arr ∈ w2p, validEdges arr = true
-
-theorem spectralSettings_unfold {ceil : α → Int} {w2p : List (List α)} {mbpp : Nat} {s : Settings α}
-    (h : spectralSettings ceil w2p mbpp = some s) :
-    ∃ firsts lasts widths w,
-      optAll (w2p.map List.head?) = some firsts ∧ optAll (w2p.map List.getLast?) = some lasts ∧
-      optAll (w2p.map fun a => minL (diffs a)) = some widths ∧
-      minL firsts = some s.minW ∧ maxL lasts = some s.maxW ∧ minL widths = some w ∧
-      s.step = w / (mbpp : α) ∧ s.bins = ceil ((s.maxW - s.minW) / s.step) := by
-  unfold spectralSettings at h
-  split at h
-  · rename_i firsts lasts widths h1 h2 h3
-    split at h
-    · rename_i mn mx w h4 h5 h6
-      simp only [Option.some.injEq] at h
-      subst h
-      exact ⟨firsts, lasts, widths, w, h1, h2, h3, h4, h5, h6, rfl, rfl⟩
-    · cases h
-  · cases h
 
 /-- **the range covers every pixel**: every pixel edge of every accommodated spectrum lies in
 `[min_wavelength, max_wavelength]` -/
@@ -236,24 +196,24 @@ theorem settings_exist (ceil : α → Int) {w2p : List (List α)} (mbpp : Nat) (
 /-! ### polychromator -/
 
 /-- a filter as the polychromator sees it: a non-degenerate window -/
-def ValidFilter (f : Filter α) : Prop := f.minW < f.maxW ∧ 0 < f.window
+def ValidFilter (f : PFilter α) : Prop := f.minW < f.maxW ∧ 0 < f.window
 
 /-- **the range covers every filter** (whatever stands in for `numpy.inf`) -/
-theorem range_covers_filters (ceil : α → Int) (inf : α) (fs : List (Filter α)) (mbpw : Nat) :
+theorem range_covers_filters (ceil : α → Int) (inf : α) (fs : List (PFilter α)) (mbpw : Nat) :
     ∀ f ∈ fs, (polySettings ceil inf fs mbpw).minW ≤ f.minW ∧ f.maxW ≤ (polySettings ceil inf fs mbpw).maxW := by
   intro f hf
   have := ((poly_fold_bounds mbpw fs (inf, inf, 0)).2.1 f hf)
   exact ⟨this.2.1, this.2.2⟩
 
 /-- the step resolves every filter window with at least `min_bins_per_window` bins -/
-theorem poly_step_bound (ceil : α → Int) (inf : α) (fs : List (Filter α)) (mbpw : Nat) :
+theorem poly_step_bound (ceil : α → Int) (inf : α) (fs : List (PFilter α)) (mbpw : Nat) :
     ∀ f ∈ fs, (polySettings ceil inf fs mbpw).step ≤ f.window / (mbpw : α) := by
   intro f hf
   exact ((poly_fold_bounds mbpw fs (inf, inf, 0)).2.1 f hf).1
 
 /-- with `inf` at least as large as every filter quantity and filters at positive wavelengths, the range is exactly
 the hull of the filters and the step is the narrowest window over `min_bins_per_window` -/
-theorem poly_range_tight (ceil : α → Int) (inf : α) (fs : List (Filter α)) (mbpw : Nat) (hne : fs ≠ [])
+theorem poly_range_tight (ceil : α → Int) (inf : α) (fs : List (PFilter α)) (mbpw : Nat) (hne : fs ≠ [])
     (hinf : ∀ f ∈ fs, f.minW ≤ inf ∧ f.window / (mbpw : α) ≤ inf) (hpos : ∀ f ∈ fs, 0 ≤ f.maxW) :
     (∃ f ∈ fs, (polySettings ceil inf fs mbpw).minW = f.minW) ∧
     (∃ f ∈ fs, (polySettings ceil inf fs mbpw).maxW = f.maxW) ∧
@@ -273,7 +233,7 @@ theorem poly_range_tight (ceil : α → Int) (inf : α) (fs : List (Filter α)) 
 
 /-- **bin width bound, polychromator**: positive bin count, and a raytraced bin is never wider than any filter window
 divided by `min_bins_per_window` -/
-theorem poly_bin_width_bound [FloorRing α] (inf : α) (hinf : 0 < inf) (fs : List (Filter α)) (mbpw : Nat) (hm : 0 < mbpw)
+theorem poly_bin_width_bound [FloorRing α] (inf : α) (hinf : 0 < inf) (fs : List (PFilter α)) (mbpw : Nat) (hm : 0 < mbpw)
     (hne : fs ≠ []) (hv : ∀ f ∈ fs, ValidFilter f) :
     let s := polySettings Int.ceil inf fs mbpw
     0 < s.bins ∧ ∀ f ∈ fs, (s.maxW - s.minW) / (s.bins : α) ≤ f.window / (mbpw : α) := by
@@ -535,6 +495,12 @@ example : calibrateEdges (fun a b : ℚ => 3 * (b - a)) [1, 2, 4, 7] = [3, 3, 3]
   norm_num [calibrateEdges]
 
 example : ctEdges (fun _ : ℚ => 1 / 2) 600 3 = [600, 1201 / 2, 601, 1203 / 2] := by norm_num [ctEdges]
+
+/-- the hypotheses of `ct_resolution_pos` are satisfiable over ℝ with the real square root
+(angle with cos = 4/5, sin = 3/5; grating 2·10⁻³ nm⁻¹, first order, 600 nm: p = 0.6 < cos² = 0.64) -/
+example : 0 < ctResolution Real.sqrt (4 / 5 : ℝ) ((3 / 5) / (4 / 5)) (1 / 500) 1 20000 1000000000 600 := by
+  apply ct_resolution_pos Real.sqrt (fun x hx => ⟨Real.sqrt_nonneg x, Real.mul_self_sqrt hx⟩) (4 / 5) (3 / 5)
+  all_goals norm_num
 
 /-- the two filters of test_spectral_properties: range (397, 704), 512 bins at 10 bins per window -/
 example : (fun s : Settings ℚ => (s.minW, s.maxW, s.bins))
